@@ -64,7 +64,12 @@ type Run struct {
 	findings     []Finding
 	exhaustive   *bool
 	replayN      int
+	cleanups     []func()
 }
+
+// Cleanup registers a function that Finish runs before exiting (deferred
+// functions of main do not run across os.Exit).
+func (r *Run) Cleanup(f func()) { r.cleanups = append(r.cleanups, f) }
 
 // New starts a run for a property at the given evidence level
 // ("exploration" or "fault_enumeration").
@@ -283,6 +288,9 @@ func (r *Run) Violation(key, what string, witness any) {
 // fewer than minNontrivial distinct non-trivial cases were observed, else 0.
 func (r *Run) Finish(minNontrivial int) {
 	code := r.Write(minNontrivial)
+	for i := len(r.cleanups) - 1; i >= 0; i-- {
+		r.cleanups[i]()
+	}
 	os.Exit(code)
 }
 
